@@ -93,6 +93,17 @@ pub fn run_fault_free(id: &'static str, plan: &ClientPlan, want_trace: bool) -> 
 
 pub const TOKENS3: [&str; 3] = ["A", "B", ""];
 pub const TOKENS5: [&str; 5] = ["A", "B", "C", "D", ""];
+/// Tokens that differ late, in letter case, or in white space only: each is a token of its own.
+pub const TOKENS_NEAR: [&str; 8] = [
+    "charge-point-0042/session-0001",
+    "charge-point-0042/session-0002",
+    "charge-point-0042/session-00010",
+    "a",
+    "A",
+    "A ",
+    " A",
+    "",
+];
 
 fn res_variant(k: u64) -> ResOutcome {
     match k % 3 {
@@ -179,6 +190,36 @@ pub fn random_cleanup(rng: &mut Rng) -> CleanupSpec {
     }
 }
 
+/// Schedule elements are no faults: what the terminal takes for one packet - planned arrival of the
+/// card, pacing, the pause inside the packet, schedule noise - must in sum stay well below the client's
+/// per-packet time-out (card reading: read_card_timeout + 2 s; everything else: 45 s leaves room for a
+/// shorter constant than today's 60 s).
+pub fn limit_delays(plan: &mut ClientPlan) {
+    let card_delay = plan
+        .ops
+        .iter()
+        .filter_map(|o| match o {
+            OpSpec::ReadCard { card } => Some(card.delay_ms),
+            _ => None,
+        })
+        .max();
+    let limit: u64 = match card_delay {
+        Some(_) => (plan.cfg.read_card_timeout as u64 + 2) * 1000 * 3 / 4,
+        None => 40_000,
+    };
+    let sum = |p: &ClientPlan| card_delay.unwrap_or(0) + p.pt.pace_ms as u64 + p.pt.frame_pause.map(|f| f.1 as u64).unwrap_or(0) + p.max_delay_ms as u64;
+    if sum(plan) > limit {
+        plan.pt.frame_pause = plan.pt.frame_pause.map(|f| (f.0, f.1.min(100)));
+    }
+    if sum(plan) > limit {
+        plan.pt.pace_ms = 0;
+    }
+    if sum(plan) > limit {
+        plan.pt.frame_pause = None;
+        plan.max_delay_ms = plan.max_delay_ms.min(50);
+    }
+}
+
 pub fn random_transport(plan: &mut ClientPlan, rng: &mut Rng) {
     if rng.pct(60) {
         plan.sched = Sched::random(rng);
@@ -190,6 +231,19 @@ pub fn random_transport(plan: &mut ClientPlan, rng: &mut Rng) {
     plan.sched.seed = rng.next_u64();
     plan.pt.bmp_reversed = rng.pct(30);
     plan.pt.rich_status = rng.pct(30);
+    // a slow but healthy terminal: every packet well inside the 60 s per-packet time-out (card reading
+    // has its own, shorter one: only histories that read no card are slowed down that much)
+    let reads_card = plan.ops.iter().any(|o| matches!(o, OpSpec::ReadCard { .. }));
+    if rng.pct(10) {
+        plan.pt.pace_ms = if reads_card { *rng.pick(&[500u32, 4_000]) } else { *rng.pick(&[4_000u32, 20_000, 40_000]) };
+    }
+    // every packet arrives in two pieces with a pause in between
+    if rng.pct(10) {
+        plan.pt.frame_pause = Some((*rng.pick(&[1u8, 2, 3, 4, 5]), *rng.pick(&[100u32, 800, 3_000])));
+    }
+    plan.pt.status_codes = rng.below(4) as u8;
+    plan.pt.intermediate_timeout = if rng.pct(25) { Some(*rng.pick(&[0u8, 1, 30, 99])) } else { None };
+    limit_delays(plan);
     plan.pt.abort_extras = if rng.pct(30) { 1 + rng.below(4) as u8 } else { 0 };
     plan.pt.status_currency = if rng.pct(20) { Some(*rng.pick(&[752u16, 826, 978, 840])) } else { None };
     plan.pt.status_seed = rng.next_u64();
@@ -813,6 +867,12 @@ impl Check for ClientCheck {
                     p.connects_then = [ConnectSpec::Refused, ConnectSpec::Hang, ConnectSpec::Refused][(i / 4) as usize];
                     p
                 }));
+                // all histories of depth 3 over three tokens that agree in their first 28 characters
+                {
+                    const LONG3: [&str; 3] = ["charge-point-0042/session-0001", "charge-point-0042/session-0002", "charge-point-0042/session-00010"];
+                    fams.push(Family::new("all_histories_depth_3_tokens_with_common_prefix", history_count(9, 3), true, move |i, _| history_at(i, &LONG3, 3)));
+                }
+                fams.push(Family::new("random_walks_near_identical_tokens", n / 4, false, move |_, rng| random_walk(rng, &TOKENS_NEAR, 16)));
                 fams.push(Family::new("random_walks_5_tokens", n, false, move |_, rng| random_walk(rng, &TOKENS5, len)));
                 fams.push(Family::new("random_walks_under_transport_faults", n / 2, false, move |_, rng| faulty_walk(rng, &TOKENS5, 12)));
             }
